@@ -130,6 +130,8 @@ type ModuleSvcSpec struct {
 
 // RigConfig fixes the in-memory (non-store) configuration of the service keeper for a scenario.
 type RigConfig struct {
+	ReentrantSelfKill bool // the other module answers a failed batch (response callback with an error) by killing that very context
+	ReentrantRestart bool // the other module reacts to a state callback (context paused for funds) by starting the context again at once
 	Reentrant bool // the other module reacts inside its callbacks: state callback -> kills that context; response callback with an error -> kills its other contexts
 	ResponseOnlyModules []string // modules that registered a response callback but no state callback
 	CallbackModules []string
@@ -204,6 +206,11 @@ func NewRig(cfg RigConfig) *Rig {
 				c.BatchCounter = rc.BatchCounter
 			}
 			rec.log = append(rec.log, c)
+			if rc, ok := r.sk.GetRequestContext(ctx, id); ok && cfg.ReentrantSelfKill && err != nil {
+				if r.sk.KillRequestContext(ctx, id, rc.Consumer) == nil {
+					rec.log = append(rec.log, CallbackRec{Kind: "selfkill", Ctx: hexs(id)})
+				}
+			}
 			if cfg.Reentrant && err != nil {
 				// the module gives up on its other contexts
 				var others [][]byte
@@ -237,6 +244,11 @@ func NewRig(cfg RigConfig) *Rig {
 			if rc, ok := r.sk.GetRequestContext(ctx, id); ok && cfg.Reentrant {
 				if r.sk.KillRequestContext(ctx, id, rc.Consumer) == nil {
 					rec.log = append(rec.log, CallbackRec{Kind: "kill", Ctx: hexs(id)})
+				}
+			}
+			if rc, ok := r.sk.GetRequestContext(ctx, id); ok && cfg.ReentrantRestart {
+				if r.sk.StartRequestContext(ctx, id, rc.Consumer) == nil {
+					rec.log = append(rec.log, CallbackRec{Kind: "restart", Ctx: hexs(id)})
 				}
 			}
 		}); err != nil {
@@ -468,7 +480,17 @@ func hexs(b []byte) string { return fmt.Sprintf("%X", b) }
 
 type Funding struct {
 	Addr sdk.AccAddress
-	Amt  int64
+	Amt  int64 // a negative value -n stands for 10^n base units (amounts beyond int64)
+}
+
+func (f Funding) coins() sdk.Coins {
+	if f.Amt < 0 {
+		return sdk.NewCoins(sdk.NewCoin(denom, sdk.NewIntWithDecimal(1, int(-f.Amt))))
+	}
+	if f.Amt == 0 {
+		return nil
+	}
+	return sdk.NewCoins(sdk.NewInt64Coin(denom, f.Amt))
 }
 
 // ParamSet is one configuration of the module parameters.
@@ -481,14 +503,22 @@ type ParamSet struct {
 	Multiple      int64
 	Arbitration   time.Duration
 	Complaint     time.Duration
+	BaseDenom     string // "" = stake
 }
 
 func (p ParamSet) Params() servicetypes.Params {
 	return servicetypes.NewParams(
 		p.MaxTimeout, p.Multiple, sdk.NewCoins(sdk.NewInt64Coin(denom, p.MinDeposit)),
 		sdk.MustNewDecFromStr(p.Tax), sdk.MustNewDecFromStr(p.Slash),
-		p.Complaint, p.Arbitration, 4000, denom,
+		p.Complaint, p.Arbitration, 4000, p.baseDenom(),
 	)
+}
+
+func (p ParamSet) baseDenom() string {
+	if p.BaseDenom == "" {
+		return denom
+	}
+	return p.BaseDenom
 }
 
 // Genesis builds the initial state: module accounts, every ordinary account that can ever receive coins
@@ -506,8 +536,7 @@ func (r *Rig) Genesis(ps ParamSet, funded []Funding, extraAccounts []sdk.AccAddr
 	for _, f := range funded {
 		acc := r.ak.NewAccountWithAddress(ctx, f.Addr)
 		r.ak.SetAccount(ctx, acc)
-		if f.Amt > 0 {
-			c := sdk.NewCoins(sdk.NewInt64Coin(denom, f.Amt))
+		if c := f.coins(); !c.Empty() {
 			if err := r.bk.MintCoins(ctx, minttypes.ModuleName, c); err != nil {
 				panic(err)
 			}
